@@ -41,6 +41,7 @@ LOOPS = {
     "objective.ObjectivePriorities.__init__": ("C08",),
     "solver.SchedulingSolver.find_another_solution": ("C12",),
     "solver.SchedulingSolver.create_objective": ("C07",),
+    "solver.SchedulingSolver.build_solution": ("C11",),
     "solution.SchedulingSolution.to_df": ("C16",),
     "excel_io.export_solution_to_excel_file": ("C16",),
     "plotter.render_gantt_matplotlib": ("C17",),
@@ -53,7 +54,7 @@ class LoopIndependence(Contract):
     inlines = tuple(k for k in LOOPS if k != "solver.SchedulingSolver.initialize")
     props = tuple(sorted({p for ps in LOOPS.values() for p in ps}))
     native_only = True
-    bounded = None
+    bounded = ""  # not a bounded stand-in: a decidable syntactic loop obligation, for every collection length
 
     def cases(self, tier):
         return [dict(fn=f) for f in LOOPS]
@@ -69,7 +70,7 @@ class LoopIndependence(Contract):
         return dict(loops=out)
 
     # loops that are genuinely order-dependent on the unchanged tree: nothing is claimed from them
-    NOT_CLAIMED = {("plotter.render_gantt_matplotlib", 7)}
+    NOT_CLAIMED = {("plotter.render_gantt_matplotlib", 7), ("solver.SchedulingSolver.build_solution", 1), ("solver.SchedulingSolver.build_solution", 3)}
 
     def clauses(self, P, ctx, case):
         out = []
